@@ -852,7 +852,12 @@ class ZonalStatistics(AccessorBase):
         if is_dask_collection(xx):
             dask_name = name
             if isinstance(dask_name, str):
-                dask_name = f"{name}-{tokenize(xx.data, zones.data, dtype)}"
+                # every input of the kernel belongs into the key: two results that
+                # differ in any of them must not share tasks when computed together
+                token = tokenize(
+                    xx.data, zones.data, num_zones, xx.nodata, zones.nodata, dtype
+                )
+                dask_name = f"{name}-{token}"
 
             chunks = [xx.data.chunks[0], (num_zones,), (2,)]
 
